@@ -1,8 +1,11 @@
 package logqlengine
 
 import (
+	"cmp"
+	"encoding/binary"
 	"maps"
 	"regexp"
+	"slices"
 
 	"github.com/cespare/xxhash/v2"
 	"go.opentelemetry.io/collector/pdata/pcommon"
@@ -30,6 +33,11 @@ func newAggregatedLabels(set LabelSet, by, without map[string]struct{}) *aggrega
 			name:  string(l),
 			value: v.AsString(),
 		})
+	})
+
+	// Label set iteration order is random, sort entries to make grouping key stable.
+	slices.SortFunc(labels, func(a, b labelEntry) int {
+		return cmp.Compare(a.name, b.name)
 	})
 
 	return &aggregatedLabels{
@@ -70,9 +78,16 @@ func (a *aggregatedLabels) Without(labels ...logql.Label) logqlmetric.Aggregated
 // Key computes grouping key from set of labels.
 func (a *aggregatedLabels) Key() logqlmetric.GroupingKey {
 	h := xxhash.New()
+	// Prefix names and values with their length, so {ab="c"} and {a="bc"} do not share a key.
+	var buf [binary.MaxVarintLen64]byte
+	writeString := func(s string) {
+		n := binary.PutUvarint(buf[:], uint64(len(s)))
+		_, _ = h.Write(buf[:n])
+		_, _ = h.WriteString(s)
+	}
 	a.forEach(func(k, v string) {
-		_, _ = h.WriteString(k)
-		_, _ = h.WriteString(v)
+		writeString(k)
+		writeString(v)
 	})
 	return h.Sum64()
 }
